@@ -665,6 +665,19 @@ def noahs_ark_family(tier):
                             toks += ([S("table"), S("td")] if marker == "td" else [S(marker)])
                     toks += [S("b", a2), S("i"), T("x"), E("p"), S("p"), T("y"), Z]
                     cases.append((case_tok(toks), "noah"))
+    # Noah's ark compares tag name, namespace and attributes - nothing else of the token: formatting start tags that
+    # differ only in the duplicate-attribute flag (written `<b x x>`) or the self-closing flag (`<b x/>`) are the same entry
+    for mix in ((0, 0, 1, 0), (1, 0, 0, 0), (0, 1, 1, 0), (1, 1, 1, 1), (0, 0, 0, 1), (0, 0, 0, 0)):
+        for flag in ("dup", "sc"):
+            toks = [S("p")]
+            for m in mix:
+                toks.append(S("b", [("x", "")], dup=(1 if m and flag == "dup" else 0), sc=(1 if m and flag == "sc" else 0)))
+            toks += [E("p"), T("y"), Z]
+            cases.append((case_tok(toks), "noah"))
+        txt = "<p>" + "".join("<b x x>" if m else "<b x>" for m in mix) + "</p>y"
+        cases.append((case_txt([txt]), "noah"))
+        cases.append((case_txt([txt.replace("<b x x>", "<b x/>")]), "noah"))
+        cases.append((case_txt([txt.replace("<b x x>", "<b X=''>").replace("<b x>", "<b x=\"\">")]), "noah"))
     for n in range(2, 6):
         cases.append((case_txt(["<p>" + "<b>" * n + "x</p>" + "<b>" * n + "y<p>z"]), "noah"))
         cases.append((case_txt(["<p>" + "<font size=1>" * n + "x</p><font size=1>y<p>z"]), "noah"))
@@ -833,7 +846,7 @@ def cdata_edge_texts():
     return [p_ + "<![CDATA[" + b + e for p_ in pres for b in bodies for e in ends]
 
 
-def deep_family(tier):
+def deep_family(tier, big=False):
     """size only: stacks, lists and loop counters past 2^8 entries (a counter narrowed to u8, a cap on a list, a depth limit)
     -> (text, None)"""
     out = []
@@ -852,6 +865,12 @@ def deep_family(tier):
         out.append(("<template>" * n + "x" + "</template>" * (n - 3) + "<td>y", None))        # template mode stack
         out.append(("<p " + " ".join("a%d=%d" % (i, i) for i in range(n)) + " a1=z>x<html " +
                     " ".join("h%d=%d" % (i, i) for i in range(n)) + ">", None))                # attribute lists
+    for pre in (("", "a") if big else ()):
+        big = pre + "é" * 33000
+        out.append((big, None))
+        out.append(("<!DOCTYPE html><body></body>" + big, None))
+        out.append(("<table><b>" + big + "</table>", None))
+        out.append(("<svg><title>" + big + "</title><![CDATA[" + big + "]]>", None))
     return out
 
 
